@@ -1006,6 +1006,24 @@ fn run_shape(c: &ShapeCase) -> Outcome {
                     Err(e) => o.push("C05:composite:SignedSecretKey:reimport-fails", format!("{kind:?}: {e}")),
                 }
             }
+            // packets built through the API from text: the header announces the octets written
+            for text in ["ascii <a@example.org>", "Zo\u{eb} M\u{fc}ller <zoe@example.org>", "\u{9375} \u{1f511}", ""] {
+                if let Ok(uid) = pgp::packet::UserId::from_str(Default::default(), text) {
+                    let mut full = Vec::new();
+                    let _ = uid.to_writer_with_header(&mut full);
+                    let announced = match pgp::packet::PacketTrait::packet_header(&uid).packet_length() {
+                        pgp::types::PacketLength::Fixed(n) => n as usize,
+                        _ => usize::MAX,
+                    };
+                    if announced != text.len() || uid.write_len() != text.len() || uid.write_len_with_header() != full.len() {
+                        o.push("C05:composite:UserId::from_str:announced-length-differs", format!("user id {text:?} ({} octets): header announces {announced}, write_len {}, {} octets written with header", text.len(), uid.write_len(), full.len()));
+                    }
+                    match parse_framed(&full) {
+                        Ok(pgp::packet::Packet::UserId(u2)) if u2 == uid => {}
+                        _ => o.push("C05:composite:UserId::from_str:reimport-differs", format!("user id {text:?}")),
+                    }
+                }
+            }
             if let Ok(ds) = DetachedSignature::sign_binary_data(crate::engine::rng(1), &cert.primary_key, &pgp::types::Password::empty(), pgp::crypto::hash::HashAlgorithm::Sha512, &b"x"[..]) {
                 chk("DetachedSignature", ds.write_len(), ds.to_bytes(), &mut o);
                 if let Ok(b) = ds.to_bytes() {
